@@ -530,7 +530,12 @@ class EagerEncoder(Encoder):
         """Convert possible design vectors to design variable definitions"""
         design_vars_list = []
         for des_vectors in design_vectors.values():
-            if des_vectors.shape[0] == 0 or des_vectors.shape[1] == 0:
+            if des_vectors.shape[0] == 0:
+                continue
+
+            # Without design variables, all design variables of the other existence patterns are inactive here
+            if des_vectors.shape[1] == 0:
+                design_vars_list.append([])
                 continue
 
             # Check if all design vectors are unique
